@@ -20,8 +20,8 @@ COQ_IMPORT = "Corr.C13"
 COQ_CASE_TYPE = "c13_case"
 COQ_CHECK = "c13_check"
 EXPLAIN_UNWRAP = "c13_unwrap"
-THEOREMS = ["c13_round_trip", "c13_round_trip_eq", "c13_leaf_round_trip", "c13_round_trip_twice", "c13_keys", "c13_fields_are_documented", "c13_fields_in_dict"]
-PROOF_FILES = ["Proofs/DictProofs.v", "Proofs/SerialProofs.v", "Proofs/MirrorClosedProofs.v"]
+THEOREMS = ["c13_round_trip", "c13_round_trip_eq", "c13_leaf_round_trip", "c13_round_trip_twice", "c13_keys", "c13_fields_are_documented", "c13_fields_in_dict", "c13_dict_is_fresh", "c13_shares_nothing", "c13_dict_unaffected_by_graph_mutation", "c13_graph_unaffected_by_dict_mutation", "c13_two_dicts_independent", "c13_copy_keeps_content", "c13_allocator_above_graph", "c13_walk_is_ids"]
+PROOF_FILES = ["Proofs/DictProofs.v", "Proofs/SerialProofs.v", "Proofs/MirrorClosedProofs.v", "Proofs/AliasProofs.v"]
 RULE = ("the C01 graph generator plus graphs with undefined (None) annotations (Conv input_shape None, Flatten(None), "
         "Output(None), Input(None)) which only the dictionary form can carry; checks: from_dict(to_dict(g)) equivalent "
         "with identical Python value types; to_dict() contains only dict/str/number/tuple/list/ndarray under documented "
